@@ -329,7 +329,7 @@ pub fn leb(mut n: u128, out: &mut Vec<u8>) {
 }
 
 /// Push `data` with a randomly chosen (possibly non-minimal) push opcode.
-fn push_data(script: &mut Vec<u8>, data: &[u8], rng: &mut Rng) {
+pub fn push_data(script: &mut Vec<u8>, data: &[u8], rng: &mut Rng) {
   let len = data.len();
   let form = rng.below(8);
   if len == 0 && form < 6 {
@@ -349,7 +349,7 @@ fn push_data(script: &mut Vec<u8>, data: &[u8], rng: &mut Rng) {
   script.extend_from_slice(data);
 }
 
-fn script_from_payload(payload: &[u8], rng: &mut Rng) -> Vec<u8> {
+pub fn script_from_payload(payload: &[u8], rng: &mut Rng) -> Vec<u8> {
   let mut script = vec![0x6a, 0x5d];
   // split the payload into 1..4 pushes at random places (also mid-varint)
   let pieces = rng.usize(1, 4);
@@ -392,7 +392,7 @@ fn gen_id(rng: &mut Rng) -> RuneId {
   RuneId { block, tx }
 }
 
-fn gen_amount(rng: &mut Rng) -> u128 {
+pub fn gen_amount(rng: &mut Rng) -> u128 {
   match rng.below(5) {
     0 => 0,
     1 => u128::MAX,
@@ -465,7 +465,7 @@ pub fn gen_runestone(rng: &mut Rng, outputs: u32) -> Runestone {
 }
 
 /// The integer sequence ord would encipher for `r` (reference encoder).
-fn integers_of(r: &Runestone) -> Vec<u128> {
+pub fn integers_of(r: &Runestone) -> Vec<u128> {
   let mut v = Vec::new();
   if let Some(e) = r.etching {
     let mut flags = 1u128;
@@ -534,7 +534,7 @@ fn integers_of(r: &Runestone) -> Vec<u128> {
 }
 
 /// Mutate an integer sequence towards every flaw.
-fn mutate(ints: &mut Vec<u128>, rng: &mut Rng, outputs: u32) -> &'static str {
+pub fn mutate(ints: &mut Vec<u128>, rng: &mut Rng, outputs: u32) -> &'static str {
   let kind = rng.below(16);
   let pos = |rng: &mut Rng, len: usize| if len == 0 { 0 } else { rng.usize(0, len) };
   match kind {
